@@ -793,6 +793,11 @@ func (o *oracle) checkAcks() {
 		}
 		o.checkOutcome(in, s)
 		o.checkChainOutcome(in, s)
+		if s.Err != nil && strings.Contains(s.Err.Error(), "time did not progress") {
+			// the round was refused by the time guard: that is a stop, not a failed round
+			in.timeGuardInc = s.Inc
+			in.timeGuardHit = true
+		}
 		if s.Err != nil {
 			if s.Item.ID >= 0 && !contains(w.failedItems, s.Item.ID) {
 				w.failedItems = append(w.failedItems, s.Item.ID)
